@@ -614,9 +614,9 @@ func analyseService() []apiRow {
 				if f, ok := fieldSel(s.X, recv); ok && engF[f] {
 					okUse[s.X] = true
 					calls[s.Sel.Name] = true
-					if s.Sel.Name == "BeginTransaction" && !(len(x.Args) == 1 && isTrueLit(x.Args[0])) {
-						row.beginsRW = true
-					}
+					// a transaction begun directly on the engine stays local to the method: its write
+					// capability shows as a_writes when the method writes through it. Only a
+					// transaction handed to the client (registry.Begin below) counts as a_begins_rw.
 					if s.Sel.Name == "Put" || s.Sel.Name == "Delete" || s.Sel.Name == "ApplyBatch" {
 						row.writes = true
 					}
@@ -763,7 +763,10 @@ func genApi() (string, string) {
                  transaction-manager method other than BeginTransaction and the counters;
                  Service: calls Put/Delete/ApplyBatch on the engine field, or Put/Delete on a
                  transaction obtained from engine.BeginTransaction / registry.Get
-     a_begins_rw reaches BeginTransaction(x) with x not the literal true
+     a_begins_rw Facade: reaches BeginTransaction(x) with x not the literal true; Service: hands the
+                 client a transaction begun through registry.Begin with a flag that is not the
+                 literal true (a transaction begun and finished inside the method counts through
+                 a_writes only)
      a_guarded   Facade: every such call is preceded, in the top-level statement list of the
                  method, by  if <recv>.<flag>.Load() { ...; return ... }  — or, for
                  BeginTransaction(x), by  if <recv>.<flag>.Load() { x = true }  — where <flag>
